@@ -16,7 +16,7 @@ CONSTANTS
   ConfSet = {}
   Weights = {}
   Budgets = {}
-  MaxRates = {}
+  MaxVbs = {}
   InSets = {}
   Conf0 = 0
   H0 = 0
